@@ -211,6 +211,7 @@ static void evalRaw(const Cfg& c, const uint8_t* raw, int n, FmSet) {
   if (c.fs.div > 1) sig += ",div";
   else if (c.fs.div < 0) sig += ",mul";
   if (c.listId) sig += ",list";
+  if (c.rangeId) sig += ",range";
   R.violation(sig, detail, "k=rt;" + c.key() + ";raw=" + hexOf(raw, n));
 }
 
@@ -231,7 +232,11 @@ static string textTrip(const Cfg& c, const string& text, bool log, string* detai
     if (log) printf("%s\n", detail->c_str());
   };
   if (rc1 != 0) { g_cnt["b_text_rejected"]++; if (log) say("text rejected: nothing to judge", "", 0, 0); return ""; }
-  if (b1.empty()) { if (log) say("no bytes produced", "", 0, 0); return ""; }
+  if (b1.empty()) {  // a field spans at least one byte: nothing that could decode was produced
+    g_cnt["b_judged"]++;
+    say("a successful encode produced no byte at all", "encoded-not-decodable", 0, 0);
+    return "encoded-not-decodable";
+  }
   if (t.bytes > 0 && static_cast<int>(b1.size()) != t.bytes) {
     g_cnt["b_judged"]++;
     say("a successful encode must produce exactly the field's " + std::to_string(t.bytes) + " byte(s)", "wrong-length", 0, 0);
@@ -242,13 +247,35 @@ static string textTrip(const Cfg& c, const string& text, bool log, string* detai
     Expect e = rc::refDecode(c.fs, b1.data(), static_cast<int>(b1.size()));
     *bcls = e.cls;  // class of the produced bytes
     bool valueAdmitted = !e.texts.empty() || e.numeric || e.ieee;
+    if (!e.dontcare && !valueAdmitted && !e.okNull && !e.okEmpty && e.okError) {
+      // converse clause: the bytes of a successful encode must decode, but the type definition says these bytes are
+      // no value (decode error expected): the encode must not have succeeded
+      g_cnt["b_judged"]++;
+      say(string("a successful encode produced a pattern the type definition calls invalid [") + e.cls + "]",
+          "encoded-invalid-pattern", 0, 0);
+      return "encoded-invalid-pattern";
+    }
     if (skipClass(c, e) || (!e.dontcare && !valueAdmitted && !e.okNull)) {
       g_cnt["b_open_class_skipped"]++;
-      if (log) say(string("produced bytes are of class [") + e.cls + "], left open / C05's and C07's subject: not judged", "", 0, 0);
+      if (log) say(string("produced bytes are of class [") + e.cls + "], left open by the statement: not judged", "", 0, 0);
       return "";
     }
   }
   g_cnt["b_judged"]++;
+  {
+    // where the type definitions fix the bytes of this text, the produced bytes must be those
+    uint8_t rb[32], rm[32];
+    int rn = 0;
+    if (rc::refEncode(c.fs, text, rb, rm, &rn)) {
+      g_cnt["b_reference_encoded"]++;
+      bool same = static_cast<int>(b1.size()) == rn || (t.bytes == 0 && c.fs.len == 255 && static_cast<int>(b1.size()) >= rn);
+      for (int i = 0; same && i < rn; i++) same = ((b1[i] ^ rb[i]) & rm[i]) == 0;
+      if (!same) {
+        say("the type definition fixes the bytes of this text: " + hexOf(rb, rn) + " (mask " + hexOf(rm, rn) + ")", "encoded-wrong-bytes", 0, 0);
+        return "encoded-wrong-bytes";
+      }
+    }
+  }
   int rc2 = I.decode(c, b1.data(), static_cast<int>(b1.size()), F_TEXT, &t2);
   if (rc2 != 0) { say("bytes produced by a successful encode do not decode", "encoded-not-decodable", rc2, 0); return "encoded-not-decodable"; }
   int rc3 = I.encode(c, t2, &b2);
@@ -343,7 +370,11 @@ static void hexTexts(const TextFn& fn) {
       fn(string(a) + b, "hex-noblank");
       fn(string(a) + " " + b, "hex-blank");
       fn(string(a) + "  " + b, "hex-blank2");
-      for (auto x : B) { fn(string(a) + " " + b + " " + x, "hex-blank"); fn(string(a) + b + x, "hex-noblank"); }
+      for (auto x : B) {
+        fn(string(a) + " " + b + " " + x, "hex-blank");
+        fn(string(a) + b + x, "hex-noblank");
+        fn(string(a) + "  " + b + "   " + x, "hex-blank2");
+      }
     }
   }
   fn("", "hex-empty");
@@ -396,6 +427,7 @@ static void evalText(const Cfg& c, const string& text, const string& tcls0) {
   if (c.fs.div > 1) sig += ",div";
   else if (c.fs.div < 0) sig += ",mul";
   if (c.listId) sig += ",list";
+  if (c.rangeId) sig += ",range";
   R.violation(sig, detail, "k=txt;" + c.key() + ";tx=" + vp::hex(reinterpret_cast<const unsigned char*>(text.data()), text.size()));
 }
 
@@ -408,7 +440,7 @@ static void textGrammar() {
       variants.push_back(t.name);
       if (t.p2 > 1) { variants.push_back(string(t.name) + ":2"); variants.push_back(string(t.name) + ":" + std::to_string(t.p2)); }
     } else if (t.bytes == 0) {
-      variants = {string(t.name), string(t.name) + ":3", string(t.name) + ":*"};
+      variants = {string(t.name), string(t.name) + ":2", string(t.name) + ":3", string(t.name) + ":*"};
     } else {
       variants.push_back(t.name);
     }
@@ -441,6 +473,15 @@ static void textGrammar() {
     Cfg c;
     if (!E.openCfg(&c, l.type, 0, l.list, false, 1)) continue;
     listTexts(c, [&](const string& s, const string& cls) { evalText(c, s, cls); });
+    Enumerator::closeCfg(&c);
+  }
+  // configured ranges: texts outside the range must not encode (produced bytes would be invalid)
+  struct { const char* type; int div; int range; } RG[] = {{"SCH", 0, 1}, {"SCH", 0, 2}, {"SIN", 0, 4}, {"D2C", 0, 7}, {"D2C", 0, 8},
+    {"SCH", 10, 9}, {"UCH", 0, 6}, {"ULG", 0, 6}, {"D1C", 0, 7}, {"SLG", 0, 1}, {"BCD", 0, 1}};
+  for (auto& l : RG) {
+    Cfg c;
+    if (!E.openCfg(&c, l.type, l.div, 0, false, 1, l.range)) continue;
+    numberTexts([&](const string& s, const string& cls) { evalText(c, s, cls); });
     Enumerator::closeCfg(&c);
   }
   // TEM_P in master data
@@ -563,6 +604,7 @@ int main(int argc, char** argv) {
   if (want("num")) E.numericTypes();
   if (want("bits")) E.bitTypes();
   if (want("list")) E.listTypes();
+  if (want("range")) E.rangeTypes();
   if (want("date")) E.dateTypes();
   if (want("time")) E.timeTypes();
   if (want("str")) E.stringTypes();
